@@ -57,6 +57,30 @@ func TestC19Codec(t *testing.T) {
 	rec.Rule("case = one value: a message (empty and maximal id/channel/payload, ttl 0..2^32-1) or a frame of 0..500 messages through Encode/Decode; an id against its inputs (ssid, second, contract); a frame split at a bound from 1 to above the frame size; " +
 		"non-trivial = messages with a non-empty field, frames of >=2 messages, splits whose bound falls inside the frame; distinct = hash of the value shape")
 	n := vk.N(4000, 400000)
+	// decoded values are kept while later values are decoded and compared again afterwards: a decoder that hands out
+	// memory it reuses for the next call passes an immediate comparison and fails this one
+	type heldFrame struct {
+		orig, back message.Frame
+		ci         int
+	}
+	var held []heldFrame
+	recheck := func(now int) {
+		for _, h := range held {
+			ok := len(h.orig) == len(h.back)
+			for i := 0; ok && i < len(h.orig); i++ {
+				ok = msgEq(&h.orig[i], &h.back[i])
+			}
+			rec.Inc("held_values_rechecked")
+			if !ok {
+				rec.Violation(now, "decoded-value-changed-later", fmt.Sprintf("the frame/message decoded in case %d (%d messages) equalled its original right after decoding but no longer does after the decodes of cases %d..%d", h.ci, len(h.orig), h.ci+1, now), nil)
+				held = nil
+				return
+			}
+		}
+		if len(held) > 6 {
+			held = held[1:]
+		}
+	}
 	for ci := 0; ci < n; ci++ {
 		if !vk.Mine(ci) {
 			continue
@@ -67,6 +91,10 @@ func TestC19Codec(t *testing.T) {
 			m := randMsg(r, true)
 			back, err := message.DecodeMessage(m.Encode())
 			rec.Case(vk.Hash("msg", len(m.ID), len(m.Channel), len(m.Payload), m.TTL), len(m.ID)+len(m.Channel)+len(m.Payload) > 0)
+			if err == nil {
+				held = append(held, heldFrame{message.Frame{m}, message.Frame{back}, ci})
+				recheck(ci)
+			}
 			if err != nil || !msgEq(&m, &back) {
 				rec.Violation(ci, "message-roundtrip", fmt.Sprintf("id=%d channel=%d payload=%d ttl=%d: err=%v decoded id=%d channel=%d payload=%d ttl=%d", len(m.ID), len(m.Channel), len(m.Payload), m.TTL, err, len(back.ID), len(back.Channel), len(back.Payload), back.TTL), nil)
 			}
@@ -81,6 +109,10 @@ func TestC19Codec(t *testing.T) {
 			okk := err == nil && len(back) == len(f)
 			for i := 0; okk && i < len(f); i++ {
 				okk = msgEq(&f[i], &back[i])
+			}
+			if okk {
+				held = append(held, heldFrame{f, back, ci})
+				recheck(ci)
 			}
 			if !okk {
 				rec.Violation(ci, "frame-roundtrip", fmt.Sprintf("frame of %d messages: err=%v decoded %d", k, err, len(back)), nil)
